@@ -379,6 +379,10 @@ def run(ctx, config='rel-all'):
     from . import forwarding, glue
     forwarding.check(ctx, config, 'R6', 'string::String', 29)
     glue.check_string(ctx, config, 'R7')
+    # ---- R8 the exported format! macro, analysed on its expansion in a client probe
+    if config == 'rel-all':
+        from . import macros
+        macros.check_format(ctx, 'R8')
 
 
 def find_string_agg(t, depth=0):
